@@ -174,6 +174,10 @@ def check_graph_tables(ctx: CheckContext, p: Program, r: Resolver, rule: str = "
                         cols.append(l)
                 prods = produced.get(g, [])
                 okp = bool(prods)
+                if not okp and not produced:
+                    # no producer of ANY graph type was recognised: the slices are built in a form this rule does not interpret (undecided, not an alarm)
+                    ctx.info.setdefault("t3_undecided", []).append(f"{g}: no table-slice producer recognised anywhere")
+                    continue
                 ctx.ob(rule, f"{f.qualname}:{g}:producer", f"{f.module.relpath}:{c.lineno}", okp,
                        "" if okp else f"graph type GraphType.{g} is rendered but no function stores a table slice under it")
                 for (pf, pcols, pk, pm) in prods:
@@ -417,6 +421,13 @@ def check_insert_count(ctx: CheckContext, p: Program, r: Resolver, rule: str = "
                     for t in n.targets:
                         if isinstance(t, ast.Name):
                             al.add(t.id)
+                elif isinstance(n, ast.AnnAssign) and isinstance(n.value, ast.Name) and n.value.id in al and isinstance(n.target, ast.Name):
+                    al.add(n.target.id)           # inserted_total: int = total_new
+                elif isinstance(n, ast.Assign) and isinstance(n.value, ast.Call) and isinstance(n.value.func, ast.Name) and n.value.func.id == "int" \
+                        and len(n.value.args) == 1 and isinstance(n.value.args[0], ast.Name) and n.value.args[0].id in al:
+                    for t in n.targets:
+                        if isinstance(t, ast.Name):
+                            al.add(t.id)
         return al
 
     # the builder: a method that allocates np.zeros/empty/full((rows + added, cols)) and returns (buffer, count)
@@ -453,6 +464,22 @@ def check_insert_count(ctx: CheckContext, p: Program, r: Resolver, rule: str = "
         buf = rt.value.elts[0]
         keeps = ast.unparse(buf) == "self.data"
         ok = (isinstance(cnt, ast.Name) and cnt.id in al and not keeps) or (keeps and isinstance(cnt, ast.Constant) and cnt.value == 0)
+        if not ok and not keeps:
+            # the count may be re-computed instead of aliased: the same expression as the growth amount is fine, a recognisably different quantity
+            # (len() of the interval map, a constant, arithmetic without the growth amount) is the violation; anything else is undecided
+            e = cnt
+            if isinstance(e, ast.Name):
+                defs = [a.value for a in body_nodes(builder) if isinstance(a, (ast.Assign, ast.AnnAssign)) and a.value is not None
+                        and any(isinstance(t, ast.Name) and t.id == e.id for t in (a.targets if isinstance(a, ast.Assign) else [a.target]))]
+                e = defs[0] if len(defs) == 1 else None
+            growth_defs = [a.value for a in body_nodes(builder) if isinstance(a, (ast.Assign, ast.AnnAssign)) and a.value is not None
+                           and any(isinstance(t, ast.Name) and t.id == added for t in (a.targets if isinstance(a, ast.Assign) else [a.target]))]
+            if e is not None and growth_defs and ast.dump(e) == ast.dump(growth_defs[0]):
+                ok = True
+            elif e is None or not (isinstance(e, ast.Constant) or (isinstance(e, ast.Call) and isinstance(e.func, ast.Name) and e.func.id == "len")
+                                   or (isinstance(e, ast.BinOp) and not ({x.id for x in ast.walk(e) if isinstance(x, ast.Name)} & al))):
+                ctx.info.setdefault("count_undecided", []).append(f"{builder.qualname}: returned count `{ast.unparse(cnt)}` is neither the growth amount nor a recognisably different quantity")
+                continue
         ctx.ob(rule, f"{builder.qualname}:{norm_stmt(rt)}", f"{builder.module.relpath}:{rt.lineno}", ok,
                "" if ok else f"{builder.name} returns `{ast.unparse(cnt)}` as the number of inserted rows, which is not the amount '{added}' the buffer grew by")
     if n_ret == 0:
@@ -475,3 +502,57 @@ def check_insert_count(ctx: CheckContext, p: Program, r: Resolver, rule: str = "
             ok = isinstance(v, ast.Name) and v.id in cntvars
             why = f"insert_temperature_interval returns `{ast.unparse(v) if v else None}` instead of the count produced by {builder.name}"
         ctx.ob(rule, f"{ins.qualname}:{norm_stmt(rt)}", f"{ins.module.relpath}:{rt.lineno}", ok, "" if ok else why)
+
+
+# =========================================================================================
+# BLOCK-ENDS - the two rows just outside a run of positions are taken from the two different ends of the run
+# =========================================================================================
+def check_block_ends(ctx: CheckContext, p: Program, r: Resolver, rule: str = "BLOCK-ENDS"):
+    """Rows are inserted as runs of consecutive positions.  The existing row above a run is `first - 1`, the one below is `last + 1`.  Taking both
+    neighbours from the SAME end (`run[-1] + 1` next to `run[-1] - 1`, `run[0] - 1` next to `run[0] + 1`) is right only for runs of one row - exactly
+    what the single-insert tests use - and lands inside the run otherwise."""
+    ctx.rule(rule, "in the row-insertion code of the problem table, `S[i] + 1` and `S[i] - 1` with the same sequence S and the same end index i (0 or -1, also "
+                   "through a local alias) do not occur together: the neighbours of a run of positions come from its two different ends")
+    pt = p.find_class("ProblemTable")
+    if pt is None:
+        raise AnalysisError("ProblemTable not found")
+    n = 0
+    for f in list(pt.methods.values()):
+        if isinstance(f.node, ast.Lambda):
+            continue
+        nodes = body_nodes(f)
+        alias = {}
+        for a in nodes:
+            if isinstance(a, ast.Assign) and len(a.targets) == 1 and isinstance(a.targets[0], ast.Name) and isinstance(a.value, ast.Subscript) \
+                    and isinstance(a.value.value, ast.Name) and isinstance(a.value.slice, (ast.Constant, ast.UnaryOp)):
+                try:
+                    i = ast.literal_eval(a.value.slice)
+                except Exception:
+                    continue
+                if i in (0, -1):
+                    alias[a.targets[0].id] = (a.value.value.id, i)
+        seen = {}
+        for b in nodes:
+            if not (isinstance(b, ast.BinOp) and isinstance(b.op, (ast.Add, ast.Sub)) and isinstance(b.right, ast.Constant) and b.right.value == 1):
+                continue
+            base = None
+            if isinstance(b.left, ast.Subscript) and isinstance(b.left.value, ast.Name):
+                try:
+                    i = ast.literal_eval(b.left.slice)
+                except Exception:
+                    i = None
+                if i in (0, -1):
+                    base = (b.left.value.id, i)
+            elif isinstance(b.left, ast.Name) and b.left.id in alias:
+                base = alias[b.left.id]
+            if base is None:
+                continue
+            seen.setdefault(base, {})["+" if isinstance(b.op, ast.Add) else "-"] = b
+        for (seq, i), ops in seen.items():
+            n += 1
+            ok = len(ops) < 2
+            b = ops.get("-" if i == -1 else "+") or next(iter(ops.values()))
+            ctx.ob(rule, f"{f.qualname}:{seq}[{i}]", f"{f.module.relpath}:{b.lineno}", ok,
+                   "" if ok else f"{f.name} computes both `{seq}[{i}] + 1` and `{seq}[{i}] - 1`: one of the two neighbours of the run `{seq}` is taken from the wrong end "
+                                 f"(it is right only when the run has a single row) - with several rows it points into the run itself")
+    return n
